@@ -2,9 +2,13 @@
    Only statements, each closed by [exact] and followed by Print Assumptions. *)
 From GV Require Import Prelude.Base Model.WsT Model.WsTSpec Proofs.WsTProofs.
 
-(* PARTIAL (exact side condition [fresh_types_run]: no entity over a stale entity node, and no caller-supplied TYPE
+(* PARTIAL (SUFFICIENT side condition [fresh_types_run]: no entity over a stale entity node, and no caller-supplied TYPE
    identifier that is stale on file -- it is live, hence shared, or no node carries it): after any such history close +
-   open succeeds and every entity has the parent, class, type identifier, primitive type and type name it had *)
+   open succeeds and every entity has the parent, class, type identifier, primitive type and type name it had.
+   The condition is sufficient, not necessary: it also rejects the harmless re-use of a stale node whose primitive type and
+   name happen to equal the new type's; what is proved about its sharpness is one excluded witness (C01T_reopen_refuted).
+   Driver convention of the model (Model/WsT.v header): [RemoveWs] is `ws.remove_entity(ws.get_entity(u)[0])`, no reference to
+   the removed entity held by the caller. *)
 Theorem C01T_reopen_partial : forall ops, fresh_types_run ops init = true ->
   let s := run ops init in
   snd (step s Reopen) = Done /\ mem_view (fst (step s Reopen)) = mem_view s.
